@@ -95,45 +95,145 @@ def printLen : Nat → Int
 
 def partsValue (ps : List (Nat × Int)) : Int := (ps.map (fun p => p.2 * printLen p.1)).sum
 
+theorem partsFrom_sum (us : List (Nat × Int)) (d : Int) (hd : 0 ≤ d)
+    (hu : ∀ u ∈ us, 0 < u.2 ∧ printLen u.1 = u.2) : partsValue (partsFrom us d) = d := by
+  induction us generalizing d with
+  | nil =>
+    simp only [partsFrom]
+    split
+    · simp [partsValue, printLen]
+    · simp [partsValue]; omega
+  | cons u us ih =>
+    obtain ⟨k, len⟩ := u
+    have hk := hu (k, len) (by simp)
+    simp only [partsFrom]
+    split
+    · have h0 : 0 ≤ d % len := Int.emod_nonneg d (by omega)
+      have := ih (d % len) h0 (fun u hu' => hu u (by simp [hu']))
+      simp only [partsValue, List.map_cons, List.sum_cons] at this ⊢
+      rw [this, hk.2]
+      have h1 := Int.mul_ediv_add_emod d len
+      rw [Int.mul_comm] at h1
+      omega
+    · exact ih d hd (fun u hu' => hu u (by simp [hu']))
+
+theorem partsFrom_pos (us : List (Nat × Int)) (d : Int) (hd : 0 ≤ d)
+    (hu : ∀ u ∈ us, 0 < u.2) : ∀ p ∈ partsFrom us d, 1 ≤ p.2 := by
+  induction us generalizing d with
+  | nil =>
+    simp only [partsFrom]
+    split <;> simp; omega
+  | cons u us ih =>
+    obtain ⟨k, len⟩ := u
+    have hk := hu (k, len) (by simp)
+    simp only [partsFrom]
+    split
+    · intro p hp
+      rcases List.mem_cons.1 hp with rfl | hp'
+      · simp only
+        exact (Int.le_ediv_iff_mul_le hk).2 (by omega)
+      · exact ih (d % len) (Int.emod_nonneg d (by omega)) (fun u hu' => hu u (by simp [hu'])) p hp'
+    · exact ih d hd (fun u hu' => hu u (by simp [hu']))
+
+theorem partsFrom_kinds (us : List (Nat × Int)) (d : Int) :
+    ∀ p ∈ partsFrom us d, p.1 = 0 ∨ ∃ u ∈ us, u.1 = p.1 := by
+  induction us generalizing d with
+  | nil => simp only [partsFrom]; split <;> simp
+  | cons u us ih =>
+    obtain ⟨k, len⟩ := u
+    simp only [partsFrom]
+    split
+    · intro p hp
+      rcases List.mem_cons.1 hp with rfl | hp'
+      · right; exact ⟨(k, len), by simp, rfl⟩
+      · rcases ih _ p hp' with h | ⟨u, hu, he⟩
+        · exact Or.inl h
+        · exact Or.inr ⟨u, by simp [hu], he⟩
+    · intro p hp
+      rcases ih _ p hp with h | ⟨u, hu, he⟩
+      · exact Or.inl h
+      · exact Or.inr ⟨u, by simp [hu], he⟩
+
+theorem partsFrom_desc (us : List (Nat × Int)) (d : Int)
+    (hs : us.Pairwise (fun a b => a.1 > b.1)) (hp : ∀ u ∈ us, 0 < u.1) :
+    (partsFrom us d).Pairwise (fun a b => a.1 > b.1) := by
+  induction us generalizing d with
+  | nil => simp only [partsFrom]; split <;> simp
+  | cons u us ih =>
+    obtain ⟨k, len⟩ := u
+    rw [List.pairwise_cons] at hs
+    simp only [partsFrom]
+    split
+    · rw [List.pairwise_cons]
+      refine ⟨?_, ih _ hs.2 (fun u hu => hp u (by simp [hu]))⟩
+      intro p hp'
+      rcases partsFrom_kinds us _ p hp' with h | ⟨u, hu, he⟩
+      · rw [h]; exact hp (k, len) (by simp)
+      · rw [← he]; exact hs.1 u hu
+    · exact ih _ hs.2 (fun u hu => hp u (by simp [hu]))
+
+theorem partsFrom_leading (us : List (Nat × Int)) (d : Int) (hd : 0 ≤ d)
+    (hu : ∀ u ∈ us, 0 < u.2 ∧ printLen u.1 = u.2) (k : Nat) (n : Int) (rest : List (Nat × Int))
+    (h : partsFrom us d = (k, n) :: rest) : n * printLen k ≤ d ∧ d < (n + 1) * printLen k := by
+  induction us generalizing d with
+  | nil =>
+    simp only [partsFrom] at h
+    split at h
+    · simp only [List.cons.injEq, Prod.mk.injEq] at h
+      obtain ⟨⟨rfl, rfl⟩, _⟩ := h
+      simp [printLen]; omega
+    · simp at h
+  | cons u us ih =>
+    obtain ⟨k', len⟩ := u
+    have hk := hu (k', len) (by simp)
+    simp only at hk
+    simp only [partsFrom] at h
+    split at h
+    · simp only [List.cons.injEq, Prod.mk.injEq] at h
+      obtain ⟨⟨rfl, rfl⟩, _⟩ := h
+      rw [hk.2]
+      have h1 := Int.mul_ediv_add_emod d len
+      have h2 := Int.emod_nonneg d (show len ≠ 0 by omega)
+      have h3 := Int.emod_lt_of_pos d hk.1
+      rw [Int.mul_comm] at h1
+      rw [Int.add_mul]
+      generalize d / len * len = q at *
+      constructor <;> omega
+    · exact ih d hd (fun u hu' => hu u (by simp [hu'])) h
+
+/-- the printing units: positive lengths, matching `printLen`, strictly descending kinds -/
+theorem units_ok : ∀ u ∈ [((6 : Nat), YEAR), (5, MONTH), (4, WEEK), (3, DAY), (2, HOUR), (1, MINUTE)],
+    0 < u.2 ∧ printLen u.1 = u.2 := by
+  intro u hu
+  simp only [List.mem_cons, List.mem_nil_iff, or_false] at hu
+  rcases hu with rfl | rfl | rfl | rfl | rfl | rfl <;> simp [printLen, YEAR, MONTH, WEEK, DAY, HOUR, MINUTE]
+
 /-- the printed parts always sum to the magnitude of the duration -/
-theorem greedy_sum (secs : Int) : partsValue (durationParts secs) = (secs.natAbs : Int) := by
-  simp only [durationParts, partsFrom, YEAR, MONTH, WEEK, DAY, HOUR, MINUTE]
-  generalize hd : (secs.natAbs : Int) = d
-  have : 0 ≤ d := by omega
-  repeat' split
-  all_goals simp [partsValue, printLen]
-  all_goals omega
+theorem greedy_sum (secs : Int) : partsValue (durationParts secs) = (secs.natAbs : Int) :=
+  partsFrom_sum _ _ (by omega) units_ok
 
 /-- every printed count is at least 1 -/
-theorem greedy_counts_pos (secs : Int) : ∀ p ∈ durationParts secs, 1 ≤ p.2 := by
-  simp only [durationParts, partsFrom, YEAR, MONTH, WEEK, DAY, HOUR, MINUTE]
-  generalize hd : (secs.natAbs : Int) = d
-  have : 0 ≤ d := by omega
-  repeat' split
-  all_goals simp
-  all_goals omega
+theorem greedy_counts_pos (secs : Int) : ∀ p ∈ durationParts secs, 1 ≤ p.2 :=
+  partsFrom_pos _ _ (by omega) (fun u hu => (units_ok u hu).1)
 
 /-- the units strictly descend (years, months, weeks, days, hours, minutes, seconds) -/
 theorem greedy_descending (secs : Int) : (durationParts secs).Pairwise (fun a b => a.1 > b.1) := by
-  simp only [durationParts, partsFrom, YEAR, MONTH, WEEK, DAY, HOUR, MINUTE]
-  generalize (secs.natAbs : Int) = d
-  repeat' split
-  all_goals simp
+  apply partsFrom_desc
+  · simp
+  · intro u hu
+    simp only [List.mem_cons, List.mem_nil_iff, or_false] at hu
+    rcases hu with rfl | rfl | rfl | rfl | rfl | rfl <;> simp
 
 /-- a zero duration prints no part -/
 theorem greedy_zero : durationParts 0 = [] := by decide
 
-/-- the leading part is the greedy one: it is the largest unit that fits, taken as often as it
-    fits -/
+/-- the leading part is the greedy one: the largest unit that fits, taken as often as it fits;
+    the same holds for every later part w.r.t. the remainder (`partsFrom_leading` is stated for
+    every suffix of the unit list) -/
 theorem greedy_leading (secs : Int) (k : Nat) (n : Int) (rest : List (Nat × Int))
     (h : durationParts secs = (k, n) :: rest) :
-    n * printLen k ≤ (secs.natAbs : Int) ∧ (secs.natAbs : Int) < (n + 1) * printLen k := by
-  simp only [durationParts, partsFrom, YEAR, MONTH, WEEK, DAY, HOUR, MINUTE] at h
-  generalize hd : (secs.natAbs : Int) = d at h ⊢
-  have : 0 ≤ d := by omega
-  repeat' split at h
-  all_goals simp only [List.cons.injEq, Prod.mk.injEq, reduceCtorEq] at h
-  all_goals (first | (obtain ⟨⟨rfl, rfl⟩, _⟩ := h; simp [printLen]; omega) | (exact absurd h (by simp)))
+    n * printLen k ≤ (secs.natAbs : Int) ∧ (secs.natAbs : Int) < (n + 1) * printLen k :=
+  partsFrom_leading _ _ (by omega) units_ok k n rest h
 
 /-! ### `D as unit` floors -/
 
